@@ -90,13 +90,14 @@ def _define():
         raise AssertionError(mode)
 
     Sh = shell.define("sh <script:str>")
+    ShOut = shell.define("sh <script:str> <out|outf:generic/file>")
 
     @workflow.define(outputs=["out"])
     def Wf(x: int, ctl: str) -> int:
         a = workflow.add(Inc(x=x, ctl=ctl), name="a")
         return a.out
 
-    return Inc, Two, Sh, Wf
+    return Inc, Two, Sh, Wf, ShOut
 
 
 _TASKS = None
@@ -110,7 +111,7 @@ def tasks():
 
 
 def make_task(spec: dict):
-    Inc, Two, Sh, Wf = tasks()
+    Inc, Two, Sh, Wf, ShOut = tasks()
     kind = spec["task"]
     ctl = spec["ctl"]
     x = int(spec.get("x", 1))
@@ -118,15 +119,22 @@ def make_task(spec: dict):
         return Inc(x=x, ctl=ctl)
     if kind == "two":
         return Two(x=x, ctl=ctl, mode=spec["mode"])
-    if kind == "sh":
+    if kind in ("sh", "shout"):
+        # the command obeys the control directory: it can kill itself with a signal (the return code subprocess
+        # reports is then negative), replace itself by a python interpreter that aborts, or exit with a given status
         script = os.path.join(ctl, "body.sh")
         if not os.path.exists(script):
             Path(script).write_text(
                 f'echo "$$ sh" >> {ctl}/execs.log\n'
+                f'if [ -n "$1" ] && [ -e {ctl}/early_out ]; then echo data{x} > "$1"; fi\n'
+                f'if [ -e {ctl}/sig ]; then kill -$(cat {ctl}/sig) $$; fi\n'
+                f'if [ -e {ctl}/abortpy ]; then exec {sys.executable} -c "import os; os.abort()"; fi\n'
                 f'if [ -e {ctl}/fail ]; then echo boom >&2; exit 3; fi\n'
                 f"echo out{x}\n"
+                f'if [ -n "$1" ]; then echo data{x} > "$1"; fi\n'
+                f'if [ -e {ctl}/exitcode ]; then exit $(cat {ctl}/exitcode); fi\n'
             )
-        return Sh(script=script)
+        return Sh(script=script) if kind == "sh" else ShOut(script=script)
     if kind == "wf":
         return Wf(x=x, ctl=ctl)
     raise ValueError(kind)
@@ -140,9 +148,49 @@ def expected_outputs(spec: dict):
     kind, x = spec["task"], int(spec.get("x", 1))
     if kind in ("py", "wf"):
         return {"out": x + 1}
-    if kind == "sh":
+    if kind in ("sh", "shout"):
         return {"stdout": f"out{x}"}
     return None
+
+
+BODY_FLAGS = ("fail", "sysexit", "sig", "abortpy", "exitcode", "early_out")
+SIGNALS = {"SEGV": 11, "KILL": 9, "ABRT": 6, "TERM": 15, "BUS": 7}
+
+
+def set_body(ctl: str, body: str):
+    """Tell the task bodies what to do next: "ok" | "fail" | "sysexit" | "sig:<NAME>[+out]" | "abortpy" | "exit:<n>"
+    ("+out": a declared output file is written before the command dies)."""
+    for f in BODY_FLAGS:
+        p = Path(ctl) / f
+        if p.exists():
+            p.unlink()
+    if body.endswith("+out"):
+        (Path(ctl) / "early_out").touch()
+        body = body[:-4]
+    if body in ("fail", "sysexit", "abortpy"):
+        (Path(ctl) / body).touch()
+    elif body.startswith("sig:"):
+        (Path(ctl) / "sig").write_text(body[4:])
+    elif body.startswith("exit:"):
+        (Path(ctl) / "exitcode").write_text(body[5:])
+    elif body != "ok":
+        raise ValueError(body)
+
+
+def body_return_code(body: str) -> int:
+    """return code `subprocess.run` reports for a shell body (what the OS does, not what pydra does)"""
+    body = body[:-4] if body.endswith("+out") else body
+    if body == "ok":
+        return 0
+    if body == "fail":
+        return 3
+    if body == "abortpy":
+        return -SIGNALS["ABRT"]
+    if body.startswith("sig:"):
+        return -SIGNALS[body[4:]]
+    if body.startswith("exit:"):
+        return int(body[5:]) % 256  # the exit status is one byte: `exit 256` is a success — the shell's business
+    raise ValueError(body)
 
 
 class HookRaised(RuntimeError):
@@ -360,7 +408,7 @@ def zygote_main():
     wd = tempfile.mkdtemp(prefix="jp-warm-")
     try:
         os.makedirs(os.path.join(wd, "ctl"))
-        for kind in ("py", "sh", "wf"):
+        for kind in ("py", "sh", "shout", "wf"):
             run_spec({"task": kind, "x": 0, "ctl": os.path.join(wd, "ctl"), "cache": os.path.join(wd, "cache")})
     finally:
         shutil.rmtree(wd, ignore_errors=True)
